@@ -29,9 +29,9 @@ type pkgInfo struct {
 	path    string // import path
 	name    string
 	files   map[string]*ast.File
-	vars    map[string]bool          // package-level variable names
-	specs   map[*ast.ValueSpec]bool  // their declarations
-	mutated map[string]bool          // names mutated outside init
+	vars    map[string]bool         // package-level variable names
+	specs   map[*ast.ValueSpec]bool // their declarations
+	mutated map[string]bool         // names mutated outside init
 	fset    *token.FileSet
 }
 
